@@ -80,9 +80,11 @@ namespace fsh
                         er->set_k_coef(ka);
                 }
                 else if (kk == "s")
-                    er = std::make_unique<eroder_t>(grid, ks);
+                    er = (n % 2 == 1) ? std::make_unique<eroder_t>(fs::make_diffusion_adi_eroder(grid, ks))
+                                      : std::make_unique<eroder_t>(grid, ks);
                 else
-                    er = std::make_unique<eroder_t>(grid, ka);
+                    er = (n % 2 == 1) ? std::make_unique<eroder_t>(fs::make_diffusion_adi_eroder(grid, ka))
+                                      : std::make_unique<eroder_t>(grid, ka);
                 for (int rep = 0; rep < reps; ++rep)
                 {
                     const auto& ero = er->erode(elev, dt);
@@ -146,7 +148,11 @@ namespace fsh
             std::unique_ptr<G> grid;
             try
             {
-                fs::raster_boundary_status bs(b);
+                // four equal borders on a grid with an even number of nodes: the one-status constructor
+                // (same object by definition); otherwise the array constructor
+                fs::raster_boundary_status bs = (b[0] == b[1] && b[1] == b[2] && b[2] == b[3] && (rows * cols) % 2 == 0)
+                                                    ? fs::raster_boundary_status(b[0])
+                                                    : fs::raster_boundary_status(b);
                 if (from_len)
                     grid = std::make_unique<G>(G::from_length(typename G::shape_type{ rows, cols },
                                                               typename G::length_type{ ly, lx }, bs, ov));
